@@ -470,7 +470,7 @@ SPECS["C01"] = ("""property C01: event JSON parsing is faithful to an independen
    of the grammar (whitespace, alternative escape spellings of known strings) "parse t = enc_event (denote t)"
    is not proved in Coq; it is decided per run by the differential check against python's json module (member orders, whitespace, escape
    spellings, unknown members, boundaries) and against the parser model (exact).""",
-  CODIMP + "\nFrom Pocket Require Import EscapeRoundTrip JsonRoundTrip JsonSkip TagsWs EventAnyOrder Spelling.", [
+  CODIMP + "\nFrom Pocket Require Import EscapeRoundTrip JsonRoundTrip JsonSkip TagsWs EventAnyOrder Spelling FilterGaps EventGaps.", [
   ("C01_created_at_value_partial",
    "forall l, read_u64 l = let '(ds, rest) := span_digits l in\n    match ds with [] => Err EJson | _ => if num_of ds <=? 18446744073709551615 then Ok (num_of ds, rest) else Err EJson end",
    "read_u64_spec", "digit run of any length: its value, or an error when >= 2^64"),
@@ -512,6 +512,12 @@ SPECS["C01"] = ("""property C01: event JSON parsing is faithful to an independen
    "as_json_is_event_text", ""),
   ("C01_int_no_wrap_u64", "forall l v r, read_u64 l = Ok (v, r) -> v < 18446744073709551616", "read_u64_fits", ""),
   ("C01_int_no_wrap_kind", "forall l v r, read_kind l = Ok (v, r) -> v < 65536", "read_kind_fits", ""),
+  ("C01_member_loop_ignores_leading_ws",
+   "forall fuel st w l, wsrun w -> event_members fuel st (w ++ l) = event_members fuel st l",
+   "event_members_ws", "for EVERY text, state and fuel: white space in front of a member never changes what the member loop returns"),
+  ("C01_leading_white_space_any_accepted_text",
+   "forall w w2 r out c enc buf, wsrun w -> wsrun w2 ->\n    event_from_json (123 :: r) out = Ok (c, enc, buf) ->\n    event_from_json (w ++ 123 :: w2 ++ r) out = Ok (len w + len w2 + c, enc, buf)",
+   "event_from_json_leading_ws", "for EVERY event text the parser accepts (inside or OUTSIDE the grammar of event_full_grammar): white space before the opening brace and right after it changes neither the encoded event nor the buffer and adds exactly its length to the consumed count (uses: more fuel never changes an answer, consumption bounded by the input)"),
   ], """(* non-vacuity with unknown members: a number with a plus-signed exponent, a nested object under a key that extends a known name, a repeated unknown key *)
 Example C01_unknown_example :
   let e := mkE (repeat 1 32) (repeat 2 32) (repeat 3 64) 1 1700000000 [[[101]; [91; 34; 93]]; []; [[]]] [104; 10; 34; 92; 195; 169] in
